@@ -189,7 +189,7 @@ def rigid_sweep(chk, MX, n):
     attempts = 0
     while done < n and attempts < 4 * n:
         attempts += 1
-        multi = rng.random() < 0.25
+        multi = rng.random() < 0.25 or attempts == 2          # (enumerated: the second scene is a formation, moved far from the Earth-fixed origin below)
         sd = gen.gen_scene(rng, chk.hist, rho="const", wind=False)
         acs = []
         for k in range(2 if multi else 1):
@@ -208,7 +208,8 @@ def rigid_sweep(chk, MX, n):
             what.append("ac")
         elif r_ < 0.85 or (multi and r_ < 0.95):
             what.append("state")
-        P = [rng.uniform(-1e3, 1e3), rng.uniform(-1e3, 1e3), rng.uniform(-1e3, 1e3)]
+        pm = 3e5 if attempts == 2 else rng.choice([1e3, 1e3, 1e5])      # "any position": also hundreds of thousands of feet from the origin
+        P = [rng.uniform(-pm, pm), rng.uniform(0.5 * pm, pm) * rng.choice([-1, 1]), rng.uniform(-pm, pm)]
         Q = api.rand_unit_quat(rng)
         mode = rng.choice(["quat", "quat_scaled", "euler_equiv"])
         try:
